@@ -130,14 +130,37 @@ def correspondence(ctx):
             sel = r.choice([0, 1, 2, 3, 3, 7, 255, 256])
             d = toyecc.keygen(2000 + r.randrange(100))
             key = r.choice([C.gen_key(r), C.gen_key(r), bytes(r.randrange(256) for _ in range(r.choice([0, 1, 15, 17, 32])))])
-            style = r.choice(["explicit", "explicit", "default", "othersel", "pubonly"])
+            style = r.choice(["explicit", "explicit", "default", "othersel", "pubonly", "ring", "ring", "reuse"])
+            d2 = toyecc.keygen(2200 + r.randrange(100))
+            others = [("ecc", (sel + k) % 256, None, toyecc.pub_of(toyecc.keygen(2300 + k))) for k in r.sample(range(1, 6), r.randrange(1, 4))]
+            ring = others + [("ecc", sel, None, toyecc.pub_of(d))]
+            if r.random() < 0.7:
+                ring = others[:1] + [("ecc", sel, None, toyecc.pub_of(d))] + others[1:]    # the matching one is not first
+            if r.random() < 0.3:
+                ring.append(("ecc", sel, None, toyecc.pub_of(d2)))                          # a later match must not win
             encs = {"explicit": [("ecc", sel, None, toyecc.pub_of(d))], "default": [],
                     "othersel": [("ecc", (sel + 1) % 256, None, toyecc.pub_of(d))],
-                    "pubonly": [("ecc", sel, None, toyecc.pub_of(d)), ("csc", b"12345678")]}[style]
+                    "pubonly": [("ecc", sel, None, toyecc.pub_of(d)), ("csc", b"12345678")],
+                    "ring": ring, "reuse": [("ecc", sel, None, toyecc.pub_of(d))]}[style]
             toyecc.reset()
             nk0 = r.randrange(5)
             toyecc.STATE["nk"] = nk0
-            w = run_impl(lambda: InitEccAuthBlock(sel).pack(key, [C.mk_encryptor(e, ToyPub, ToyPriv) for e in encs]))
+            if style == "reuse":
+                # one long-lived block object packed before for another recipient / selector / key: the
+                # second output must depend on the second call's arguments only
+                def reuse():
+                    blk = InitEccAuthBlock(r.choice([sel, sel, (sel + 1) % 4]))
+                    k0 = r.choice([key, key, C.gen_key(r)])
+                    try:
+                        blk.pack(k0, [C.mk_encryptor(("ecc", blk.key_selector, None, toyecc.pub_of(d2)), ToyPub, ToyPriv)])
+                    except Exception:   # noqa
+                        pass
+                    blk.key_selector = sel
+                    toyecc.STATE["nk"] = nk0
+                    return blk.pack(key, [C.mk_encryptor(e, ToyPub, ToyPriv) for e in encs])
+                w = run_impl(reuse)
+            else:
+                w = run_impl(lambda: InitEccAuthBlock(sel).pack(key, [C.mk_encryptor(e, ToyPub, ToyPriv) for e in encs]))
             nk = toyecc.STATE["nk"]
             qe = qlist([C.q_encryptor(e) for e in encs], "encryptor")
             exprs.append("res_eqb (prod_eqb bytes_eqb N.eqb) (pack toy_enc sha_oracle toy_pub_of toy_ecdh toy_keygen "
@@ -213,6 +236,36 @@ def search(ctx):
                 lib = run_impl(lambda: InitEccAuthBlock.unpack(block, [EccDecryptor(sel, priv)]))
                 if lib[0] != "ok" or lib[1][1] != key:
                     ctx.fail("ecc-unpack", {"d": hex(d), "sel": sel, "key": key}, repr(lib)[:200])
+                # key ring: several recipients with other selectors around the addressed one, and a
+                # long-lived block object that was packed before for somebody else
+                d_other = r.randrange(1, N_ORDER)
+                opriv = plug.PrivateEccKeyProxy(SigningKey.from_secret_exponent(d_other, NIST256p))
+                osels = [x for x in range(4) if x != sel]
+                ringl = [EccEncryptor(x, opriv.public_key) for x in r.sample(osels, r.randrange(1, 4))]
+                ringl.insert(r.randrange(1, len(ringl) + 1), EccEncryptor(sel, priv.public_key))
+                ctx.case(("ring", d, sel, key, tuple(e.key_selector for e in ringl)))
+                blk2 = run_impl(lambda: InitEccAuthBlock(sel).pack(key, ringl))
+                got2 = run_impl(indep_recipient, d, blk2[1]) if blk2[0] == "ok" else blk2
+                if got2 != ("ok", (sel, key)):
+                    ctx.fail("ecies-recipient-in-ring", {"d": hex(d), "sel": sel, "key": key, "other": hex(d_other),
+                                                         "ring_selectors": [e.key_selector for e in ringl]}, repr(got2)[:200])
+                blkobj = InitEccAuthBlock(sel)
+                first = run_impl(lambda: blkobj.pack(key, [EccEncryptor(sel, opriv.public_key)]))
+                again = run_impl(lambda: blkobj.pack(key, [EccEncryptor(sel, priv.public_key)]))
+                got3 = run_impl(indep_recipient, d, again[1]) if again[0] == "ok" else again
+                ctx.case(("reuse", d, sel, key))
+                if got3 != ("ok", (sel, key)):
+                    ctx.fail("ecies-recipient-after-reuse", {"d": hex(d), "sel": sel, "key": key, "first_recipient": hex(d_other)},
+                             repr(got3)[:200])
+                fobj = Bec2File(B.build({}, []), [InitEccAuthBlock(sel)], key)
+                bins = [run_impl(lambda: fobj.to_binary([EccEncryptor(sel, kk.public_key)])) for kk in (opriv, priv)]
+                if bins[1][0] == "ok":
+                    from props.C02 import parse_header
+                    hb = [v for t, v in parse_header(bins[1][1])[0] if t == 3]
+                    got4 = run_impl(indep_recipient, d, hb[0]) if hb else ("err", "no ecc block")
+                    if got4 != ("ok", (sel, key)):
+                        ctx.fail("ecies-recipient-after-file-reuse", {"d": hex(d), "sel": sel, "key": key,
+                                                                      "first_recipient": hex(d_other)}, repr(got4)[:200])
                 if ossl:
                     try:
                         o = openssl_recipient(ossl, d, block, tmp)
